@@ -741,7 +741,7 @@ class NumWalker(Walker):
     def private_helper(self, nm):
         """a module-private function of the bit layer (src/impls) without a contract: analysed in the caller's context, so that
         moving code into a helper neither hides its obligations nor changes the verdict"""
-        if not nm.startswith("impls::") or nm in self.contracts:
+        if not nm.startswith(("impls::", "codes::")) or nm in self.contracts:
             return False
         bl = self.facts.by_path.get(nm, [])
         return len(bl) == 1 and bl[0]["kind"] in ("Fn", "AssocFn") and str(bl[0].get("vis") or "").startswith("Restricted") and not bl[0].get("impl_trait")
